@@ -244,6 +244,44 @@ Theorem c04_divide_by_zero_is_error : forall frac_pow x y n1 n2,
 Proof. exact eval_div_zero. Qed.
 Print Assumptions c04_divide_by_zero_is_error.
 
+(* ---- THE EXPONENT INVARIANT of the arithmetic (proof extension; review-2 findings N2 / N5).
+   vbound B v: every number that v denotes - as a number, as a numeric text, through an object default, inside an array
+   or object - has its decimal exponent within +-B.
+   (1) Every operator except & keeps it, for ANY B >= 100000 (maxNumberExponent) and all operands: + and - give the
+   smaller of the two exponents, * and ^ (whole power, after canonical form) are guarded to +-100000, / and a negative
+   power give -16, comparisons give booleans.  One invariant preserved by every operator, instead of a guard restated
+   per operator.  (& builds a text: its bound is the length theorem c04_concatenation_result_bounded; a non-integral
+   power has an unmodelled value.) ---- *)
+Theorem c04_arithmetic_keeps_exponent_bound : forall frac_pow B op x y v,
+  (max_number_exponent <= B)%Z -> vbound B x = true -> vbound B y = true -> op <> OConcat ->
+  (op = OPow -> forall n2, to_number y = Ok n2 -> dec_is_integer (dec_canonical n2) = true) ->
+  eval_binop frac_pow op x y = Ret v -> vbound B v = true.
+Proof. exact arithmetic_keeps_exponent_bound. Qed.
+Print Assumptions c04_arithmetic_keeps_exponent_bound.
+
+(* (2) ... and so does every TREE of them: for the arithmetic fragment of the evaluator (arith: literals, context
+   references, dot and index lookups, unary minus, + - * /, the comparisons, = and !=, ^ with a whole-number literal
+   power; no calls, no &), over literals and a context within +-B, every value the evaluator returns is within +-B,
+   however deep the tree.  No evaluation of this fragment builds an exponent beyond the larger of 100000 and what it
+   was given. *)
+Theorem c04_arithmetic_tree_keeps_exponent_bound : forall wclass regex ext frac_pow lookup_function B ctx e v,
+  (max_number_exponent <= B)%Z -> vbound B (VObject None ctx) = true -> arith e -> literals_within B e ->
+  eval wclass regex ext frac_pow lookup_function ctx e = Ret v -> vbound B v = true.
+Proof. exact arithmetic_tree_keeps_exponent_bound. Qed.
+Print Assumptions c04_arithmetic_tree_keeps_exponent_bound.
+
+(* (3) Hence, for that fragment over a context and literals within +-10^9, the evaluator NEVER panics (no class
+   excepted) and never runs out of the model's fuel: the FULL statement, with no hypothesis on the unmodelled functions
+   or on the series part of ^ (the fragment uses neither) - what c04_eval_panics_only_on_exponent_overflow_partial
+   leaves open for the whole language.  The fragment and the hypotheses are inhabited
+   (Example arithmetic_fragment_inhabited). *)
+Theorem c04_arithmetic_tree_never_panics : forall wclass regex ext frac_pow lookup_function ctx e,
+  vbound exponent_budget (VObject None ctx) = true -> arith e -> literals_within exponent_budget e ->
+  eval wclass regex ext frac_pow lookup_function ctx e <> NoFuel /\
+  forall c, eval wclass regex ext frac_pow lookup_function ctx e <> Panic c.
+Proof. exact arithmetic_tree_never_panics_statement. Qed.
+Print Assumptions c04_arithmetic_tree_never_panics.
+
 (* array lookup: an index outside [-count, count) is an error value; inside, never a panic *)
 Theorem c04_index_out_of_range_is_error : forall items l index dot,
   to_integer l = Ok index -> (zlen items <= index \/ index < - zlen items)%Z ->
